@@ -1,0 +1,29 @@
+//go:build verif
+
+// Contracts for the deductive verifier in /verif (govc). Comment-only file,
+// compiled only with -tags verif.
+
+package server
+
+// ---------------------------------------------------------------------------
+// C25: the sampling sender conserves statistics and forwards every file
+// ---------------------------------------------------------------------------
+
+// Representation invariant: agg never holds files (len(s.agg.Files) == 0).
+// Conservation: (sum of Stats handed downstream) + (Stats held in agg) grows by
+// exactly the Stats of the received event, for every counter; every received
+// file is handed downstream in the same call.
+//@ func server.(*samplingSender).Send
+//@   requires s != nil && event != nil && s.next != nil && root(event) != root(s)
+//@   foreach_field zoekt.Stats except Duration,FlushReason ensures sentStats.$f + s.agg.Stats.$f == old(sentStats.$f) + old(s.agg.Stats.$f) + old(event.Stats.$f)
+//@   requires len(s.agg.Files) == 0
+//@   ensures len(s.agg.Files) == 0
+//@   ensures sentFiles == old(sentFiles) + old(len(event.Files))
+
+// Flush: whatever is still aggregated is handed downstream (counters are
+// non-negative, so "not Zero" is the same as "some counter non-zero").
+//@ func server.(*samplingSender).Flush
+//@   requires s != nil && s.next != nil
+//@   foreach_field zoekt.Stats except Duration,FlushReason ensures old(allNonNeg(s.agg.Stats)) ==> sentStats.$f == old(sentStats.$f) + old(s.agg.Stats.$f)
+
+//@ pure func allNonNeg(st zoekt.Stats) bool = st.ContentBytesLoaded >= 0 && st.IndexBytesLoaded >= 0 && st.Crashes >= 0 && st.FileCount >= 0 && st.ShardFilesConsidered >= 0 && st.FilesConsidered >= 0 && st.FilesLoaded >= 0 && st.FilesSkipped >= 0 && st.ShardsScanned >= 0 && st.ShardsSkipped >= 0 && st.ShardsSkippedFilter >= 0 && st.MatchCount >= 0 && st.NgramMatches >= 0 && st.NgramLookups >= 0 && st.Wait >= 0 && st.MatchTreeConstruction >= 0 && st.MatchTreeSearch >= 0 && st.RegexpsConsidered >= 0
